@@ -1,6 +1,8 @@
 """term.py — R-TERM: recursion SCCs and natural loops of a scope must carry a termination witness."""
 import re
-from mir import op_place, op_const
+from mir import op_place, op_const, const_int
+from collections import defaultdict
+import lib
 import guard
 
 INFINITE_ITER = re.compile(r"RangeFrom<|iter::Repeat<|iter::Cycle<|iter::RepeatWith<|iter::Successors<|iter::FromFn<|iter::sources::|io::Lines|io::Bytes|mpsc::")
@@ -198,6 +200,106 @@ def check_counter(F, b, callee_suffix, param_name):
     if hits == 0:
         return False, "no call to %s" % callee_suffix
     return True, "%d call(s) pass %s - k under %s >= 1" % (hits, param_name, param_name)
+
+
+def check_counter_sites(F, comp, spec):
+    """A recursion cycle bounded by a budget parameter (`depth`): every member takes it, the listed call sites hand on
+    `depth - k` (k >= 1) where `depth >= 1` is known, every other call inside the cycle hands on its own budget unchanged,
+    the cycle is broken once the listed sites are removed, and every call from outside starts with a constant of at most
+    `max_start`."""
+    param = spec["param"]
+    comp = set(comp)
+
+    def budget_index(cb):
+        if cb.kind == "Closure":
+            return None
+        for i in range(1, cb.argc + 1):
+            if cb.lname(i) == param:
+                return i - 1
+        return None
+    members = {pth: F.bodies[pth] for pth in comp}
+    idx = {}
+    for pth, cb in members.items():
+        if cb.kind == "Closure":
+            continue
+        j = budget_index(cb)
+        if j is None:
+            return False, "%s, a member of the cycle, has no parameter `%s`" % (F.canon_of(cb), param)
+        idx[pth] = j
+    site_keys = set()
+    for st_ in spec["sites"]:
+        site_keys.add((st_["in"], st_["callee"]))
+    edges = defaultdict(set)
+    nsites = 0
+    for pth, cb in members.items():
+        env = guard.Env(cb)
+        fn = F.canon_of(cb)
+        for c in cb.calls:
+            if not (c.local and c.name in comp):
+                continue
+            tb = F.bodies[c.name]
+            if tb.kind == "Closure":
+                edges[pth].add(c.name)
+                continue
+            j = idx[c.name]
+            pos = (c.bb, 10**6)
+            arg = env.op_term(c.args[j], pos)
+            # the budget as this body sees it: its own parameter, or (in a closure) the captured variable of that name
+            mine = {param} | {env.place_term(pl, pos).base for nm, pl in cb.upvars if nm == param}
+
+            def own(base):
+                return base is not None and any(m is not None and m in base for m in mine)
+            is_site = any(fn == a and F.canon_of(tb).endswith(cal) for a, cal in site_keys)
+            if is_site:
+                nsites += 1
+                if not own(arg.base) or arg.off > -1:
+                    return False, "%s hands %r to %s, not %s - k" % (fn, arg, F.canon_of(tb), param)
+                base = guard.Term(arg.base, 0, arg.reads, arg.ty)
+                S, used, ok = guard.knowledge(env, c.bb, 10**6, [arg, base])
+                if not (ok(base) and S.lower(base) >= 1):
+                    return False, "the call to %s in %s (line %d) is not known to run under %s >= 1" % (F.canon_of(tb), fn, c.ln, param)
+            else:
+                if not own(arg.base) or arg.off > 0:
+                    return False, "%s hands %r to %s: not its own `%s` (or less)" % (fn, arg, F.canon_of(tb), param)
+                edges[pth].add(c.name)
+        # closures created by a member run on the member's behalf
+        for cl in F.closures_of(pth):
+            if cl.path in comp:
+                edges[pth].add(cl.path)
+    if nsites < len(spec["sites"]):
+        return False, "only %d of the %d decrementing call sites were found" % (nsites, len(spec["sites"]))
+    # acyclic without the decrementing sites
+    state = {}
+
+    def cyc(v):
+        state[v] = 1
+        for w in edges.get(v, ()):
+            if state.get(w) == 1 or (state.get(w) is None and cyc(w)):
+                return True
+        state[v] = 2
+        return False
+    for v in members:
+        if state.get(v) is None and cyc(v):
+            return False, "a cycle remains that passes none of the decrementing call sites"
+    # outside callers start with a small constant
+    starts = []
+    for pth, cb in F.bodies.items():
+        if pth in comp:
+            continue
+        for c in cb.calls:
+            if c.local and c.name in comp and c.name in idx:
+                k = op_const(c.args[idx[c.name]])
+                v = const_int(k) if k is not None else None
+                if v is None:
+                    k2 = lib.trace_operand(cb, c.args[idx[c.name]]) if hasattr(lib, "trace_operand") else None
+                    kk = op_const(k2) if k2 is not None else None
+                    v = const_int(kk) if kk is not None else None
+                if v is None or v > spec.get("max_start", 1000):
+                    return False, "%s enters the cycle at %s with a budget that is not a constant <= %d (%s)" % (F.canon_of(cb), F.canon_of(F.bodies[c.name]), spec.get("max_start", 1000), cb.oname(c.args[idx[c.name]], 3))
+                starts.append(v)
+    if not starts:
+        return False, "no outside caller found"
+    return True, "%d site(s) pass %s - k under %s >= 1; every other call in the cycle passes its own %s; %d outside callers start at <= %d" % (nsites, param, param, param, len(starts), max(starts))
 
 
 def range_bound_ok(b, next_call):
@@ -626,6 +728,8 @@ def check_termination(ctx, F, scope, loops_table, rec_table, rule="R-TERM"):
                     ok, how = False, "start constant %s is missing or exceeds %d" % (r["start_const"], r.get("max_start", 1000))
                 else:
                     how += "; starts at %s = %s" % (r["start_const"], lim["int"])
+        elif w == "counter-sites":
+            ok, how = check_counter_sites(F, comp, r)
         elif w in ("structural", "input-bounded"):
             ok, how = True, "TABLED (%s): %s" % (w, r["reason"])
             # a structural bound is void if the cycle resolves references (reference graphs can be cyclic)
